@@ -176,9 +176,20 @@ func srCases(nchunks, nsamples int) []srCase {
 			return p[:len(p)/2]
 		},
 	}
+	// and a payload that is complete but declares one metric more than its reference document has
+	cuts = append(cuts, func(p []byte) []byte {
+		m := append([]byte{}, p...)
+		if len(m) >= 4 {
+			if rl := int(binary.LittleEndian.Uint32(m)); rl >= 5 && rl+8 <= len(m) {
+				binary.LittleEndian.PutUint32(m[rl:], binary.LittleEndian.Uint32(m[rl:])+1)
+				return m
+			}
+		}
+		return m[:len(m)/2]
+	})
 	for k := 0; k < nchunks; k++ {
 		for v, cut := range cuts {
-			if v != k%len(cuts) && !(k == 0 && nchunks <= 2) {
+			if v != k%len(cuts) && v != (k+3)%len(cuts) && !(k == 0 && nchunks <= 2) {
 				continue
 			}
 			bad := withPayload(base, k, cut)
